@@ -25,8 +25,10 @@ pub fn run(args: &[String]) -> String {
             }
         }
         "C09" => crate::unknown_find::search(seed),
+        "C06" => crate::arith_find::backend_search(seed),
         "C10" | "C11" | "C05" => {
             let r = crate::opcost_find::search(seed);
+            let r = if r.contains("\"found\":true") { r } else { crate::arith_find::cost_search(seed) };
             if r.contains("\"found\":true") {
                 r
             } else if pid == "C11" {
@@ -37,6 +39,10 @@ pub fn run(args: &[String]) -> String {
         }
         "C23" => crate::treehash_find::search(seed),
         "C21" => crate::varint_find::search(seed),
+        "C20" => {
+            let r = crate::varint_find::search(seed);
+            if r.contains("\"found\":true") { r } else { crate::ser26_find::search(seed) }
+        }
         _ => "{\"found\":false,\"note\":\"no finder registered for this property\"}".to_string(),
     }
 }
